@@ -329,6 +329,15 @@ namespace
     {
         const Alphabet &a = alpha_of(variant);
         std::unique_ptr<Rx> rx(make_rx(variant, cap));
+        // a second receiver of another framing variant works next to the one under test on clean traffic of its own (one byte
+        // of it per byte of the stream): whatever happens on the first link, the second delivers every one of its frames
+        int by_variant = (variant + 1 + (int)(stream.size() % 2)) % VAR_N;
+        const Alphabet &ba = alpha_of(by_variant);
+        const bool with_bystander = stream.size() >= 16; // (not for the millions of exhaustive short streams)
+        std::unique_ptr<Rx> by(with_bystander ? make_rx(by_variant, 8) : nullptr);
+        const Bytes by_payload = {(uint8_t)'b', (uint8_t)'y', ba.START};
+        const Bytes by_frame = ref_encode(ba, by_payload);
+        size_t by_pos = 0, by_frames = 0;
         RefTrack ref(a);
         std::vector<int> delivered_at(stream.size(), 0);
         std::vector<char> overflow_in_frame(frames.size(), 0), newpkg_in_frame(frames.size(), 0);
@@ -404,6 +413,21 @@ namespace
                 if (e.frame < 0) probe("accidental_crc_match");
             }
             ref.feed(b);
+            if (with_bystander)
+            {
+                Status bs = by->put(by_frame[by_pos]);
+                bool last = by_pos + 1 == by_frame.size();
+                if (bs == ST_CRCERR || bs == ST_OVERFLOW || bs == ST_STUFFERR || (bs == ST_NEWPKG) != last)
+                    violate(fault_free ? "C04/bystander" : "C05/bystander", "a second receiver (%s) fed clean frames next to the receiver under test (%s) answered %s at byte %zu of its frame #%zu",
+                            VAR_NAME[by_variant], VAR_NAME[variant], ST_NAME[bs], by_pos, by_frames);
+                if (last)
+                {
+                    if (by->delivered() != by_payload) violate(fault_free ? "C04/bystander" : "C05/bystander", "a second receiver (%s) working next to the receiver under test delivered another payload than was sent", VAR_NAME[by_variant]);
+                    by_frames++;
+                    by_pos = 0;
+                }
+                else by_pos++;
+            }
         }
         // per-frame obligations
         int eligible_seen = 0;
